@@ -94,17 +94,18 @@ Proof.
   replace (46 =? 83) with false by reflexivity. reflexivity.
 Qed.
 
+Lemma dec_6 : dec 6 = [54]. Proof. vm_compute. reflexivity. Qed.
+
+Ltac plain_chars := listy; (split; [discriminate|reflexivity]).
+
 Lemma wit_name_render sha : sha_ok sha -> render_rel [wit_name sha] = wit_name sha.
 Proof.
-  intros Hs. apply render_single. unfold wit_name. apply Forall_app. split.
-  - unfold wit_p1. listy; split; first [discriminate | reflexivity].
+  intros Hs. apply render_single. unfold wit_name. rewrite dec_6. apply Forall_app. split.
+  - unfold wit_p1. plain_chars.
   - constructor; [split; [discriminate|reflexivity]|]. apply Forall_app. split.
     + apply hex_plain. specialize (Hs wit_c1). unfold is_sha256_hex in Hs.
       apply andb_true_iff in Hs as [_ Hs]. exact Hs.
-    + constructor; [split; [discriminate|reflexivity]|]. apply Forall_app. split.
-      * vm_compute. listy; split; first [discriminate | reflexivity].
-      * constructor; [split; [discriminate|reflexivity]|].
-        unfold wit_p2. listy; split; first [discriminate | reflexivity].
+    + unfold wit_p2. cbn [app]. plain_chars.
 Qed.
 
 Lemma wit_entries1 sha :
